@@ -41,6 +41,7 @@ SSE_RECORDS = {
     "G": "data: é名\n\n".encode(),
     "I": b"data: i\r\r",
     "J": b"retry: 5\ndata: j\n\n",
+    "K": b"data: k\r\ndata: l\r\n\r\n",  # CRLF between the lines of one event
     "H": b"data: z",  # final unterminated event (last position only)
 }
 ND_RECORDS = {
